@@ -345,9 +345,12 @@ func (txmp *TxMempool) ReapMaxBytesMaxGas(maxBytes, maxGas int64) types.Txs {
 	for _, w := range txmp.allEntriesSorted() {
 		// N.B. When computing byte size, we need to include the overhead for
 		// encoding as protobuf to send to the application.
+		// N.B. A gas total that wrapped around (possible when maxGas >
+		// MaxInt64/2) is over the limit.
+		wrapped := w.gasWanted > 0 && totalGas+w.gasWanted < totalGas
 		totalGas += w.gasWanted
 		totalBytes += types.ComputeProtoSizeForTxs([]types.Tx{w.tx})
-		if (maxGas >= 0 && totalGas > maxGas) || (maxBytes >= 0 && totalBytes > maxBytes) {
+		if (maxGas >= 0 && (wrapped || totalGas > maxGas)) || (maxBytes >= 0 && totalBytes > maxBytes) {
 			break
 		}
 		keep = append(keep, w.tx)
